@@ -62,10 +62,10 @@ fn main() {
         "C19" => vec![("c19", c19::run)],
         "C20" => vec![("c20", c20::run)],
         "C01" => vec![("c01", c01::run_c01), ("gen", gen::run), ("model", model::run_differential)],
-        "C04" => vec![("c04", c01::run_c04)],
+        "C04" => vec![("c04", c01::run_c04), ("gen", gen::run)],
         "C06" => vec![("c06", c01::run_c06), ("c15", c15::run), ("model", model::run_differential)],
         "C07" => vec![("c07", c01::run_c07), ("c15", c15::run), ("model", model::run_differential)],
-        "C02" => vec![("c02", c02::run), ("model", model::run_differential)],
+        "C02" => vec![("c02", c02::run), ("gen", gen::run), ("model", model::run_differential)],
         "C03" => vec![("c03", c03::run), ("model", model::run_differential)],
         "C08" => vec![("c08", c08::run), ("c03", c03::run)],
         "C09" => vec![("c09", c09::run_c09), ("gen", gen::run)],
